@@ -63,4 +63,52 @@ theorem run_sound (t : Table) (hn : NamesDistinctOnMro t) (cache : Cache) (hc : 
     simp only [runWith, List.map_cons]
     exact ⟨by rw [h1, h3], h4⟩
 
+/-! ### decidable checks over a concrete (generated) table -/
+
+def namesDistinctB (t : Table) : Bool :=
+  (List.range t.classes.length).all fun c =>
+    (t.cls c).mro.all fun i => !((t.cls i).name == (t.cls c).name) || i == c
+
+theorem cls_out_of_range (t : Table) (c : Nat) (h : t.classes.length ≤ c) : t.cls c = ⟨[], [], []⟩ := by
+  unfold Table.cls
+  simp [List.getD, List.getElem?_eq_none h]
+
+theorem namesDistinct_of_B (t : Table) (h : namesDistinctB t = true) : NamesDistinctOnMro t := by
+  intro c i hi hname
+  by_cases hc : c < t.classes.length
+  · unfold namesDistinctB at h
+    rw [List.all_eq_true] at h
+    have h1 := h c (List.mem_range.mpr hc)
+    rw [List.all_eq_true] at h1
+    have h2 := h1 i hi
+    simp only [Bool.or_eq_true, Bool.not_eq_true', beq_eq_false_iff_ne, ne_eq, beq_iff_eq] at h2
+    rcases h2 with h2 | h2
+    · exact absurd hname h2
+    · exact h2
+  · rw [cls_out_of_range t c (by omega)] at hi
+    simp at hi
+
+/-- every class of the table answers with pairwise distinct keys -/
+def keysNodupB (t : Table) : Bool :=
+  (List.range t.classes.length).all fun c => decide (t.pure c).Nodup
+
+theorem keysNodup_of_B (t : Table) (h : keysNodupB t = true) (c : Nat) (hc : c < t.classes.length) : (t.pure c).Nodup := by
+  unfold keysNodupB at h
+  rw [List.all_eq_true] at h
+  simpa using h c (List.mem_range.mpr hc)
+
+theorem count_le_one_of_nodup {α : Type} [BEq α] [LawfulBEq α] (l : List α) (h : l.Nodup) (a : α) : l.count a ≤ 1 := by
+  induction l with
+  | nil => simp
+  | cons x xs ih =>
+    simp only [List.nodup_cons] at h
+    simp only [List.count_cons]
+    have := ih h.2
+    by_cases hx : x = a
+    · subst hx
+      have : xs.count x = 0 := List.count_eq_zero.mpr h.1
+      simp [this]
+    · have hb : (x == a) = false := by simpa using hx
+      simp [hb]; exact this
+
 end Tranp.PropKeys
